@@ -31,7 +31,11 @@ pub struct ProgSet {
 }
 impl ProgSet {
     fn text(&self) -> String {
-        format!("[{}] writer={:?} main_reads={} bound={:?}", self.programs.iter().map(|p| p.text()).collect::<Vec<_>>().join(" || "), self.writer, self.main_reads, self.bound)
+        format!("[{}] writer={:?} main_reads={} bound={:?}{}", self.programs.iter().map(|p| p.text()).collect::<Vec<_>>().join(" || "), self.writer, self.main_reads, self.bound, if self.crowd() > 0 { format!(" crowd={}", self.crowd()) } else { String::new() })
+    }
+    /// extra handles the main thread holds while the programs run (so that the count is large) and releases before joining
+    fn crowd(&self) -> usize {
+        self.expect_facts.iter().find_map(|f| f.strip_prefix("@crowd=").and_then(|n| n.parse().ok())).unwrap_or(0)
     }
 }
 
@@ -158,6 +162,14 @@ fn gen_sets(prop: &str, tier: &str) -> Vec<ProgSet> {
                 for m3 in multisets(&p1, 3) {
                     sets.push(ProgSet { programs: m3, writer: None, main_reads: true, readers_see_only_v0: false, bound: Some(if thorough { 3 } else { 2 }), expect_facts: vec![] });
                 }
+            }
+            // the same races while the count is large (a path keyed on "widely shared" starts somewhere)
+            for crowd in if thorough { vec![18usize, 40] } else { vec![18usize] } {
+                let cp = [Program { init: Kind::A, ops: vec![Read, Drop] }, Program { init: Kind::A, ops: vec![Drop] }, Program { init: Kind::O, ops: vec![Read, Drop] }, Program { init: Kind::T, ops: vec![Read, Drop] }];
+                for p1 in &cp {
+                    sets.push(ProgSet { programs: vec![p1.clone()], writer: None, main_reads: false, readers_see_only_v0: false, bound: Some(3), expect_facts: vec![format!("@crowd={}", crowd)] });
+                }
+                sets.push(ProgSet { programs: vec![cp[0].clone(), cp[0].clone()], writer: None, main_reads: false, readers_see_only_v0: false, bound: Some(2), expect_facts: vec![format!("@crowd={}", crowd)] });
             }
             // simplest first across the groups, so that a wall-clock cap cuts every group proportionally
             sets.sort_by_key(|s| (s.programs.iter().map(|p| p.ops.len()).sum::<usize>() + s.programs.len(), s.programs.len()));
@@ -373,6 +385,7 @@ fn run_set(set: &ProgSet, budget_s: f64) -> SetResult {
             let rules = Rules { readers_see_only_v0: set2.readers_see_only_v0 };
             let kinds: Vec<Kind> = set2.programs.iter().map(|p| p.init).collect();
             let (mainh, ths, id, block) = setup(&kinds);
+            let crowd: Vec<LH> = (0..set2.crowd()).map(|_| vrt::arena::cap(|| mainh.clone_same())).collect();
             let mut joins = Vec::new();
             for (i, h) in ths.into_iter().enumerate() {
                 let s = set2.clone();
@@ -394,6 +407,10 @@ fn run_set(set: &ProgSet, budget_s: f64) -> SetResult {
                 main_thread_part(LH::A(arc), true, rules);
             } else {
                 main_thread_part(mainh, set2.main_reads, rules);
+                for h in crowd {
+                    bridge::sync_tid();
+                    vrt::arena::cap(|| drop(h));
+                }
                 for j in joins {
                     j.join().unwrap();
                 }
@@ -512,6 +529,9 @@ fn main() {
             multi_outcome_sets += 1;
         }
         for want in &set.expect_facts {
+            if want.starts_with('@') {
+                continue; // a parameter of the set, not an expected outcome
+            }
             let alts: Vec<&str> = want.split('|').collect();
             let hit = r.outcomes.iter().any(|o| alts.iter().any(|a| o.contains(a)));
             if !hit {
